@@ -6,6 +6,7 @@ import (
 	"regexp/syntax"
 	"strings"
 	"time"
+	"unicode"
 
 	"github.com/coregx/coregex/dfa/onepass"
 	"github.com/coregx/coregex/nfa"
@@ -194,4 +195,127 @@ func capsOfMatch(m *nfa.MatchWithCaptures, ngroups int) []int {
 		}
 	}
 	return out
+}
+
+// dumpProg: the toolchain's own compiled program for p (syntax.Compile(re.Simplify())), in the wire format of
+// Cx.Driver.parseProg; case folding of single-rune instructions is expanded to explicit ranges (unicode.SimpleFold orbit).
+func dumpProg(p string, flags syntax.Flags) (string, int, bool) {
+	re, err := syntax.Parse(p, flags)
+	if err != nil {
+		return "", 0, false
+	}
+	ncap := re.MaxCap()
+	prog, err := syntax.Compile(re.Simplify())
+	if err != nil {
+		return "", 0, false
+	}
+	var parts []string
+	for i := range prog.Inst {
+		in := &prog.Inst[i]
+		switch in.Op {
+		case syntax.InstAlt, syntax.InstAltMatch:
+			parts = append(parts, fmt.Sprintf("A.%d.%d", in.Out, in.Arg))
+		case syntax.InstCapture:
+			parts = append(parts, fmt.Sprintf("C.%d.%d", in.Out, in.Arg))
+		case syntax.InstEmptyWidth:
+			parts = append(parts, fmt.Sprintf("E.%d.%d", in.Out, in.Arg))
+		case syntax.InstMatch:
+			parts = append(parts, "M")
+		case syntax.InstFail:
+			parts = append(parts, "F")
+		case syntax.InstNop:
+			parts = append(parts, fmt.Sprintf("N.%d", in.Out))
+		case syntax.InstRuneAny:
+			parts = append(parts, fmt.Sprintf("Y.%d", in.Out))
+		case syntax.InstRuneAnyNotNL:
+			parts = append(parts, fmt.Sprintf("Z.%d", in.Out))
+		case syntax.InstRune, syntax.InstRune1:
+			var rs []string
+			if len(in.Rune) == 1 {
+				r0 := in.Rune[0]
+				rs = append(rs, fmt.Sprintf("%d-%d", r0, r0))
+				if syntax.Flags(in.Arg)&syntax.FoldCase != 0 {
+					for f := unicode.SimpleFold(r0); f != r0; f = unicode.SimpleFold(f) {
+						rs = append(rs, fmt.Sprintf("%d-%d", f, f))
+					}
+				}
+			} else {
+				for k := 0; k+1 < len(in.Rune); k += 2 {
+					rs = append(rs, fmt.Sprintf("%d-%d", in.Rune[k], in.Rune[k+1]))
+				}
+			}
+			parts = append(parts, fmt.Sprintf("R.%d.%s", in.Out, strings.Join(rs, "_")))
+		default:
+			return "", 0, false
+		}
+	}
+	cond := int(prog.StartCond())
+	return fmt.Sprintf("%d/%d/%d/%s", prog.Start, cond, prog.NumCap, strings.Join(parts, ";")), 2 * (ncap + 1), true
+}
+
+// c03SpecValidation: the Lean transliteration of regexp's own backtracker (Cx.GoRef, run on the toolchain's compiled
+// program) must return what the real regexp package returns — this is what "equals regexp" means on the Lean side.
+func c03SpecValidation(r *Report, root *RNG) {
+	np := 250
+	if r.Tier == "thorough" {
+		np = 2500
+	}
+	type cs struct {
+		p, req, want string
+		h            []byte
+		lg           bool
+	}
+	var cases []cs
+	for i := 0; i < np; i++ {
+		rng := root.Fork(0x60EF + uint64(i))
+		p := patternSource(rng, i, GenOpts{MaxDepth: 3})
+		std, err := regexp.Compile(p)
+		if err != nil {
+			continue
+		}
+		dump, nslots, ok := dumpProg(p, syntax.Perl)
+		if !ok || len(dump) > 6000 {
+			continue
+		}
+		ast, _ := syntax.Parse(p, syntax.Perl)
+		stdL := regexp.MustCompile(p)
+		stdL.Longest()
+		for k := 0; k < 5; k++ {
+			h := GenHaystack(rng, ast, false)
+			if len(h) > 48 {
+				h = h[:48]
+			}
+			if k == 0 {
+				h = nil
+			}
+			for _, lg := range []bool{false, true} {
+				re := std
+				if lg {
+					re = stdL
+				}
+				cases = append(cases, cs{p, fmt.Sprintf("goref %d %d 0 %s %s", map[bool]int{false: 0, true: 1}[lg], nslots, hexOf(h), dump), intsStr(re.FindSubmatchIndex(h)), h, lg})
+			}
+		}
+		r.Case("goref\x00"+p, true)
+	}
+	var reqs []string
+	for _, c := range cases {
+		reqs = append(reqs, c.req)
+	}
+	ans, err := RunLean(reqs)
+	if err != nil || len(ans) != len(reqs) {
+		r.Violate(fmt.Sprintf("Lean driver failed on the GoRef validation: %v", err), map[string]any{"correspondence": "Cx.GoRef vs regexp"}, true)
+		return
+	}
+	t := r.Tie("spec validation: Lean Cx.GoRef (regexp's backtracker on syntax.Prog) == regexp.FindSubmatchIndex (leftmost-first and Longest)")
+	for i, c := range cases {
+		t.Cases++
+		got := strings.ReplaceAll(ans[i], " ", "")
+		if got == c.want {
+			continue
+		}
+		t.Disagreements++
+		r.Violate(fmt.Sprintf("Lean reference Cx.GoRef disagrees with regexp on %q haystack %q longest=%v: lean=%s regexp=%s (the specification side is wrong, not the library)", c.p, c.h, c.lg, got, c.want),
+			map[string]any{"pattern": c.p, "haystack_hex": hexOf(c.h), "longest": c.lg, "request": c.req, "lean": got, "regexp": c.want, "correspondence": "Cx.GoRef vs regexp"}, true)
+	}
 }
